@@ -61,6 +61,7 @@ def main(argv, tier, base_seed):
         reuse = 0
         inter = 0
         swept = 0
+        assembled = 0
         aborted = {}
         samples = []
         max_tasks = 0
@@ -90,6 +91,7 @@ def main(argv, tier, base_seed):
             reuse += r.get("reuse_chain_steps", 0)
             inter += r.get("interleaved_lists_checked", 0)
             swept += r.get("cancellation_sweep", 0)
+            assembled += r.get("assembled_components_checked", 0)
             for k, v in (r.get("aborted_requests") or {}).items():
                 aborted[k] = aborted.get(k, 0) + v
             if r["stats"]["three_level_chains"] > 0:
@@ -158,7 +160,7 @@ def main(argv, tier, base_seed):
                 "simulated_time": "none: no clock in cij; time = monitor's event sequence number; events: %d" % agg["events"],
                 "monitor_events": agg, "max_tasks_in_one_request": max_tasks, "strain_kinds": kinds, "history_sizes": sizes,
                 "max_request_dependence_over_scale": maxdev, "ride_along_relations": rel, "reused_list_chain_steps_checked": reuse,
-                "interleaved_task_lists_checked": inter,
+                "interleaved_task_lists_checked": inter, "calculator_assembled_components_checked_against_fresh_request": assembled,
                 "faults": {"kind": "cancel: an earlier request on the same calculator is cancelled at its k-th cij line event and abandoned; the requests that follow "
                                    "must still equal their singleton references (the scheduler does no I/O, so no I/O fault applies)",
                            "fired_by_site": dict(sorted(aborted.items())), "fired": sum(v for k, v in aborted.items() if k != "finished-before-the-cut"),
